@@ -680,14 +680,20 @@ def run_case(ctx):
         # the empty sum, or (with reversal, which rebuilds the operator through +=) all-zero coefficients
         empty = (isinstance(spec, list) and not spec) or _simplifies_to_nothing(_ref_terms(spec))
         wf = Wavefunction(psi)
-        try:
-            get_expectation_value(op, wf, rev)
-            get_expectation_value(op, wf)
-            M = get_sparse_operator(op, n)
-        except ValueError:
-            if empty:
-                return  # recorded by the hooks (empty sum cannot be converted)
-            raise
+
+        def guarded(f):
+            try:
+                return f()
+            except ValueError:
+                if empty:
+                    return None  # recorded by the hooks (the empty sum cannot be converted)
+                raise
+
+        guarded(lambda: get_expectation_value(op, wf, rev))
+        guarded(lambda: get_expectation_value(op, wf))
+        M = guarded(lambda: get_sparse_operator(op, n))
+        if M is None:
+            return
         expectation(M, psi)
         expectation(M, psi.reshape(-1, 1))
         import scipy.sparse
